@@ -159,9 +159,9 @@ func c16Invariant(sc, tc int, st *c16State) string {
 func TestVerifC16Mapping(t *testing.T) {
 	res := ev.New("C16", "mapping")
 	defer res.Write()
-	maxN, depth := 4, 5
+	maxN, depth := 5, 6
 	if ev.Thorough() {
-		maxN, depth = 5, 6
+		maxN, depth = 6, 8
 	}
 	res.Bounds["max_channels_per_side"] = maxN
 	res.Bounds["max_offers"] = depth
